@@ -316,8 +316,9 @@ def sensorlist_case(rng, co, serial, multi):
     desc = {"kind": "sensorlist", "multi": multi, "n": n, "line": line}
     sl = "run.sensorlist.multi" if multi else "run.sensorlist.single"
     co.add(sl, "run " + line, out, C.EXACT, desc=desc)
-    if not out.startswith("ERR"):
-        co.add("run.table", "table " + line.replace(zip_mode() + " ", "req ", 1), out, C.EXACT, desc=desc)
+    if not out.startswith("ERR") and not (multi and zip_mode() == "code"):
+        # the specification (table of the individual simulations); with the known defect mirrored it cannot hold for `multi`
+        co.add("run.table.sensorlist", "table " + line.replace(zip_mode() + " ", "req ", 1), out, C.EXACT, desc=desc)
     co.note("sensor list %s n=%d" % ("multi-frequency" if multi else "single-valued", n))
 
 
@@ -359,16 +360,27 @@ def dort_model():
 
 
 def dort_individual(model, sensor, sps):
-    """the individual (frequency, snowpack) simulations, each by its own call of run"""
+    """the individual (frequency, snowpack) simulations, each by its own call of run; also the dimensions and coordinates of one of them"""
     import copy
-    out = {}
+    out, shape = {}, None
     fr = np.atleast_1d(sensor.frequency)
     for fi, f in enumerate(fr):
         s1 = copy.copy(sensor)
         s1.frequency = f
         for si, sp in enumerate(sps):
-            out[(fi, si)] = np.asarray(model.run(s1, sp).data.values)
-    return out
+            d = model.run(s1, sp).data
+            out[(fi, si)] = np.asarray(d.values)
+            if shape is None:
+                shape = [(str(x), [tok(v) for v in d.coords[x].values]) for x in d.dims]
+    return out, shape
+
+
+def dort_sensor_tokens(sensor, shape):
+    """the sensor as DORT's results present it: the frequencies, then the dimensions of an individual result with their coordinates"""
+    ax = {"frequency": [tok(v) for v in np.atleast_1d(sensor.frequency)]}
+    ax.update(dict(shape))
+    present = [a for a in AXES if a in ax]
+    return f"S {len(present)} " + " ".join(f"{a} {len(ax[a])} " + " ".join(ax[a]) for a in present)
 
 
 def dort_batch_line(res, sensor, sps, ind, snowdim):
@@ -380,10 +392,6 @@ def dort_batch_line(res, sensor, sps, ind, snowdim):
     vals = np.asarray(data.values)
     inner = [d for d in dims if d not in ("frequency", snowdim)]
     cells = []
-    fixed = []
-    for a in AXES:
-        v = getattr(sensor, a, None)
-        fixed.append("-" if v is None else ",".join(tok(x) for x in np.atleast_1d(v)))
     for idx in np.ndindex(*vals.shape):
         pos = dict(zip(dims, idx))
         fi = pos.get("frequency", 0)
@@ -400,7 +408,7 @@ def dort_batch_line(res, sensor, sps, ind, snowdim):
         if who is None:
             val = "nomatch"
         else:
-            parts = list(fixed)
+            parts = ["-"] * len(AXES)
             parts[0] = tok(fr[who[0]])
             for d in inner:
                 parts[AXES.index(d)] = coords[dims.index(d)][pos[d]]
@@ -425,8 +433,8 @@ def dort_case(rng, co, serial, parallel_jobs=()):
     kind = ["list", "dict", "series", "study"][int(rng.integers(0, 4))]
     cont, kw, frag = gen_container(rng, sps, kind)
     snowdim = frag.split(" dim ")[1].split(" ")[0] if " dim " in frag else None
-    line = f"{zip_mode()} {','.join(DORT_BC)} one {sensor_tokens(sensor)} {frag}"
-    ind = dort_individual(model, sensor, sps)
+    ind, shape = dort_individual(model, sensor, sps)
+    line = f"{zip_mode()} {','.join(DORT_BC)} one {dort_sensor_tokens(sensor, shape)} {frag}"
     desc = {"kind": "dort", "n": n, "nf": nf, "container": kind, "line": line}
 
     def run(**extra):
@@ -690,7 +698,7 @@ def correspond(ctx):
     rng = ctx.np
     first = warm_up()
     co.note("warm-up (first active ReflectorBackscatter run of the process) wrote user=%s shared=%s" % (first[0], first[1]))
-    for k in range(ctx.n(150, 1500)):
+    for k in range(ctx.n(120, 1500)):
         stub_case(rng, co, k)
     for k in range(ctx.n(30, 300)):
         sensorlist_case(rng, co, k, multi=(k % 2 == 0))
@@ -749,7 +757,7 @@ def check_batch(seed, n_jobs=None):
     m = dort_model()
     n = int(rng.integers(2, 6))
     sps = [mk_snowpack(rng, "b%d" % i) for i in range(n)]
-    fr = [float(x) for x in rng.choice(FREQS[1:6], int(rng.integers(1, 4)), replace=False)]
+    fr = [float(x) for x in rng.choice(FREQS[1:6], int(rng.integers(2, 4)), replace=False)]
     sensor = passive(fr, [35., 55.])
     r = m.run(sensor, sps)
     problems = []
@@ -772,9 +780,6 @@ def check_batch(seed, n_jobs=None):
 def oracle(ctx, hints, effort):
     findings, evals = {}, 0
     first = warm_up()
-    if any("stop_pol2_warning" in u for u in first[0]):
-        findings[K_FLAG] = Finding(K_FLAG, "the first active run over a ReflectorBackscatter substrate sets `stop_pol2_warning` on the caller's substrate object",
-                                   {"kind": "untouched", "substrate": "reflectorBackscatterSet", "active": True, "first": True}, first[0], "no location of the caller's objects changes")
     # inputs untouched
     for kind in SUBSTRATES:
         for act in (False, True):
@@ -802,20 +807,25 @@ def oracle(ctx, hints, effort):
                                                  f"{bad[0][0]} is not that of the individual simulation ({len(bad)} of {nsp * len(freqs)} cells misplaced)",
                                                  {"kind": "sensorlist", "nsp": nsp, "freqs": list(freqs)}, bad[0][1], bad[0][2]))
     # batch vs individual, repeat, parallel
-    seeds = [int(ctx.np.integers(0, 10**6)) for _ in range(4 if effort == "routine" else 40)]
+    seeds = [int(ctx.np.integers(0, 10**6)) for _ in range(4 if effort == "routine" else 10)]
     for j, sd in enumerate(seeds):
         evals += 1
-        nj = ([2] + [None] * 3)[j] if effort == "routine" else [None, 1, 2, 4, 16][j % 5]
+        nj = ([2] + [None] * 3)[j] if effort == "routine" else [None, 1, 2, 4, 16 if ctx.thorough else 2][j % 5]
         for p in check_batch(sd, nj):
             key = "dort:" + p[0]
             findings.setdefault(key, Finding(key, f"{p[0]} run differs from the reference: {p}", {"kind": "batch", "seed": sd, "n_jobs": nj}, p, "bitwise equal"))
+    if any("stop_pol2_warning" in u for u in first[0]):
+        findings[K_FLAG] = Finding(K_FLAG, "the first active run of the process over a ReflectorBackscatter substrate sets `stop_pol2_warning` on the caller's substrate object",
+                                   {"kind": "untouched", "substrate": "reflectorBackscatterSet", "active": True, "first": True}, first[0], "no location of the caller's objects changes")
     return list(findings.values()), evals
 
 
 def replay(inp, rp=None):
     if inp["kind"] == "untouched":
-        if inp.get("first"):
-            return None      # only observable in a fresh process
+        if inp.get("first"):     # observable only once per process: the replay process is fresh
+            first = warm_up()
+            bad = [u for u in first[0] if "stop_pol2_warning" in u]
+            return Finding(K_FLAG, "the first active run over a ReflectorBackscatter substrate writes into the caller's substrate", inp, bad, "no location changes") if bad else None
         user, other, err = check_untouched(inp["substrate"], inp["active"])
         if user or other:
             return Finding("?", "Model.run changes the caller's objects", inp, user + other, "no location changes")
